@@ -31,11 +31,30 @@ fn build(seed: u64, i: usize) -> Built {
     let mut r_style = base.sub("style");
     let mut r_plan = base.sub("plan");
     let knobs = Knobs::random(&mut r_proj);
-    let shape = ProjectShape { max_files: 3, max_defs: 6, with_main: true, pragma_always: false };
+    let shape = ProjectShape { max_files: 3, max_defs: 6, with_main: true, pragma_always: false, name_suffix: String::new() };
     let mut project = gen::gen_project(&mut r_proj, &knobs, &shape);
     // name more files than the default, so that several definitions are analysed
     if r_proj.chance(1, 2) {
         project.named = (0..project.files.len()).collect();
+    }
+    // a second package in a sub-directory: same file names, same include strings, other files
+    if r_proj.chance(1, 4) {
+        let mut k2 = Knobs::random(&mut r_proj);
+        k2.circomlib_names = false;
+        let shape2 = ProjectShape { max_files: 2, max_defs: 3, with_main: false, pragma_always: false, name_suffix: "Q".into() };
+        let q = gen::gen_project(&mut r_proj, &k2, &shape2);
+        let off = project.files.len();
+        for mut f in q.files {
+            f.path = format!("pkg/{}", f.path);
+            f.main = None;
+            project.files.push(f);
+        }
+        project.named.push(off); // pkg/main.circom
+        if r_proj.chance(1, 2) {
+            for j in 1..(project.files.len() - off) {
+                project.named.push(off + j);
+            }
+        }
     }
     let style = Style::random(&mut r_style);
     let style_seed = r_style.next_u64();
